@@ -30,6 +30,7 @@ func (m *Model) listForWrite(tk string, ts int64) *listEnt {
 	m.listDrop(tk)
 	e := &listEnt{}
 	m.list[tk] = e
+	m.noteGen("list", tk, ts)
 	return e
 }
 
@@ -42,6 +43,7 @@ func (m *Model) applyList(o Op) Exp {
 		}
 		e := m.listForWrite(tk, o.Ts)
 		for _, v := range o.A {
+			m.noteAdd("list", tk, v)
 			if o.Name == "lpush" {
 				e.l = append([]string{v}, e.l...)
 			} else {
@@ -121,6 +123,7 @@ func (m *Model) applyList(o Op) Exp {
 			return Exp{R: rErr("index out of range")}
 		}
 		e.l[idx] = o.A[1]
+		m.noteAdd("list", tk, o.A[1])
 		return Exp{R: rOK()}
 	case "ltrim":
 		start, ok1 := parseInt(o.A[0])
